@@ -178,6 +178,16 @@ func c17OpsKS(ks, other univ.KeySet, thorough bool) []c17Op {
 		unprotect("unprotect(truncated)", gI[:len(gI)-7], false, false), unprotect("unprotect(short sk body)", append(append([]byte(nil), gI[:30]...), 0, 9, 1, 2, 3, 4, 5), false, false),
 		unprotect("unprotect(reflected)", gI, true, false), unprotect("unprotect(cross-key)", mk(other, 0, true, 10), false, false),
 		child(16, 1, univ.Pat(32, 5)), child(32, -1, nil), child(16, 1, univ.Pat(32, 6)),
+		unprotect("unprotect(genuine I->R, SK generic header with critical flag and reserved bits)", func() []byte {
+			x := mk(ks, 0, true, 62)
+			x[29] = 0xff
+			_, ska := ks.DirKeys(true)
+			icv := ks.Suite.Integ.OutLen
+			copy(x[len(x)-icv:], ref.HMAC(ks.Suite.Integ.Digest, ska, x[:len(x)-icv])[:icv])
+			return x
+		}(), false, true),
+		unprotect("unprotect(tampered header length)", func() []byte { x := append([]byte(nil), gI...); x[27] ^= 0x08; return x }(), false, true),
+		unprotect("unprotect(tampered SK header flags)", flip(gI, 29), false, false),
 		unprotect("unprotect(genuine I->R, pad length 255)", mkPad(0, true, 255, 60), false, false), unprotect("unprotect(genuine R->I, pad length 40..55)", mkPad(1, false, 55, 61), true, true),
 		c17Op{"caller computes a checksum of its own on the exported Integ_i and Integ_r objects", func(sa *security.IKESAKey) string {
 			for _, h := range []hash.Hash{sa.Integ_i, sa.Integ_r} {
